@@ -22,6 +22,8 @@ func main() {
 		genChain(r, "cs")
 	case "C14":
 		genChain(r, "ts")
+	case "C19":
+		genC19(r)
 	case "C04":
 		genC04(r)
 	case "C05":
